@@ -115,6 +115,57 @@ CONSTRUCTS = [
     ("async-with", "must-reject", ["async with x as y:", "    pass"]),
 ]
 
+# loop `else` clauses under every shape of loop body (falls through / never falls through / mixed)
+_LOOP_BODIES = {
+    "tail-continue": ["    i += 1", "    continue"],
+    "search-break-or-continue": ["    if i == x:", "        break", "    else:", "        i += 1", "        continue"],
+    "return-or-break": ["    if x > 5:", "        return", "    break"],
+    "always-break": ["    i += 1", "    break"],
+    "always-return": ["    return"],
+    "nested-loop-break": ["    i += 1", "    for j in range(2):", "        break"],
+}
+for _n, _b in _LOOP_BODIES.items():
+    CONSTRUCTS.append((f"while-else:{_n}", "observe", ["i = 0", "while i < 3:", *_b, "else:", '    result("else", i)', 'result("after", i)']))
+    CONSTRUCTS.append((f"for-else:{_n}", "observe", ["i = 0", "for _q in range(3):", *_b, "else:", '    result("else", i)', 'result("after", i)']))
+
+# int-valued expression constructs in every expression POSITION (the checker treats synthesising and
+# checking positions with different code): (name, setup lines, expression)
+_EXPRS = [
+    ("keyword-args", [], "sub(b=1, a=x)"),
+    ("keyword-args-mixed", [], "sub(x, b=2)"),
+    ("keyword-args-surplus", [], "sub(x, 1, z=3)"),
+    ("keyword-args-overloaded-range", [], "len(range(0, 10, step=5))"),
+    ("keyword-args-default", [], "dflt(x, b=1)"),
+    ("call-star-args", ["t = (x, 2)"], "sub(*t)"),
+    ("call-star-star-kwargs", [], 'sub(**{"a": x, "b": 2})'),
+    ("lambda-call", [], "(lambda v: v + 1)(x)"),
+    ("await", [], "(await x)"),
+    ("yield", [], "(yield x)"),
+    ("starred-in-tuple-display", ["t = (x, 2)"], "(*t, 3)[2]"),
+    ("slice-read", ["xs = array(x, 2, 3)"], "xs[0:2][1]"),
+    ("dict-display", [], "{1: x, 2: 4}[1]"),
+    ("list-comprehension", [], "[i + x for i in range(2)][1]"),
+    ("generator-sum", [], "sum(i + x for i in range(2))"),
+    ("f-string-len", [], 'len(f"{x}")'),
+    ("operator-matmul", [], "x @ x"),
+    ("bool-and-on-ints", [], "(x and 5)"),
+    ("bool-or-on-ints", [], "(x - 1 or 4)"),
+]
+_POSITIONS = {
+    "annassign": lambda e: ["y: int = " + e, 'result("y", y)'],
+    "return-value": lambda e: ["def g(x: int) -> int:", "    return " + e, 'result("g", g(x))'],
+    "call-argument": lambda e: [f'result("a", sub({e}, 1))'],
+    "condition": lambda e: [f"if {e} > 3:", '    result("c", 1)', "else:", '    result("c", 0)'],
+    "annotated-tuple": lambda e: [f"t2: tuple[int, int] = ({e}, 1)", 'result("t", t2[0])'],
+    "struct-argument": lambda e: [f"p = P({e}, 2)", 'result("u", p.u)'],
+    "augassign": lambda e: ["y = 1", "y += " + e, 'result("y", y)'],
+    "operand": lambda e: [f'result("o", 1 + {e})'],
+}
+for _n, _setup, _e in _EXPRS:
+    for _pn, _pf in _POSITIONS.items():
+        _kind = "must-reject" if _n in ("await", "yield") else "observe"
+        CONSTRUCTS.append((f"{_n}@{_pn}", _kind, [*_setup, *_pf(_e)]))
+
 PLACEMENTS = {
     "body": lambda ls: ls,
     "in-if": lambda ls: ["if c:"] + ["    " + l for l in ls],
